@@ -23,7 +23,7 @@ pub fn property() -> Property {
             assumptions: vec![
                 "token validity window is the property's (must accept <= 5 min, must reject > 10 min + 2*gap, either in between)".into(),
                 "LRU victim accepted unless a survivor was certainly used less recently".into(),
-                "equal-seq-different-value and cas-on-empty-slot may be accepted or rejected (state must follow)".into(),
+                "an equal-seq put with a different value may be accepted or rejected (state must follow); a cas put on an empty slot must be accepted".into(),
                 "ed25519-dalek and sha1_smol are trusted for the oracle's own re-verification".into(),
             ],
         },
